@@ -62,7 +62,7 @@ Definition h_of (a : option alignment) : halign := match a with Some al => match
 Definition v_of (a : option alignment) : valign := match a with Some al => match al_v al with Some v => v | None => VBottom end | None => VBottom end.
 
 (* an element without any text-align on itself and its parents (no caption style text-align): the layout's alignment,
-   absent parts start / after - the case C12_dfxp_layout_roundtrip_written is about *)
+   absent parts start / after - the case C12_dfxp_layout_roundtrip_written_corollary is about *)
 Theorem written_plain_alignment : forall e parents a, plain e -> Forall plain parents ->
   element_alignment (Some e) parents (region_ta a) (region_da a) = Some (mkAlign (Some (h_of a)) (Some (v_of a))).
 Proof.
